@@ -259,6 +259,7 @@ func loadWorldStage(cfg LoadConfig, base map[string][]byte, forceHelper map[stri
 		return nil, fmt.Errorf("ssa packages missing")
 	}
 	w.allFuncs = ssautil.AllFunctions(prog)
+	devirtualiseThunks(prog, w.allFuncs)
 	if !noNormalise {
 		fa, fnotes := resolveFieldRenames(roots)
 		for k, v := range fa {
@@ -600,4 +601,36 @@ func ssaDeclKey(f *ssa.Function) string {
 		return fo.Pkg().Path() + "." + n.Obj().Name() + "." + fo.Name()
 	}
 	return ""
+}
+
+// devirtualiseThunks: a call of a method expression applied on the spot, (*T).M(x, a), is built by go/ssa as a call
+// of the synthetic thunk M$thunk. Where the thunk's first parameter has exactly the method's receiver type the call
+// is the static method call x.M(a); the callee is replaced so that every rule sees the method itself.
+func devirtualiseThunks(prog *ssa.Program, funcs map[*ssa.Function]bool) {
+	for f := range funcs {
+		for _, b := range f.Blocks {
+			for _, in := range b.Instrs {
+				c, ok := in.(ssa.CallInstruction)
+				if !ok {
+					continue
+				}
+				cc := c.Common()
+				th, ok := cc.Value.(*ssa.Function)
+				if !ok || !strings.HasPrefix(th.Synthetic, "thunk for ") {
+					continue
+				}
+				obj, ok := th.Object().(*types.Func)
+				if !ok {
+					continue
+				}
+				real := prog.FuncValue(obj)
+				if real == nil || real.Signature.Recv() == nil || th.Signature.Params().Len() == 0 {
+					continue
+				}
+				if types.Identical(th.Signature.Params().At(0).Type(), real.Signature.Recv().Type()) {
+					cc.Value = real
+				}
+			}
+		}
+	}
 }
